@@ -1,5 +1,5 @@
 #!/usr/bin/env python3
-"""usage: auto_twins.py <fstring|hoist|tern2if|if2tern|loop2join|pos2kw> <out-dir> [file ...]
+"""usage: auto_twins.py <fstring|hoist|tern2if|if2tern|loop2join|pos2kw|inline> <out-dir> [file ...]
 Mechanical behaviour-preserving rewrites of the generators, one function at a time, written as
 <out-dir>/benign_out/<n>/patch.diff for tools/benign_matrix.py:
   fstring  every `'<template>'.format(k=<simple expr>, ...)` of the function becomes the equivalent f-string
@@ -302,11 +302,63 @@ def rewrite_pos_to_kw(src, fn):
     return out
 
 
+def rewrite_inline_locals(src, fn):
+    """`x = E` (E without calls: evaluation order cannot matter) directly followed by a statement that reads x exactly once,
+    x read nowhere else  ->  the statement with `(E)` in place of x."""
+    lines = src.splitlines(keepends=True)
+    edits = []
+    reads = {}
+    for n in ast.walk(fn):
+        if isinstance(n, ast.Name) and isinstance(n.ctx, ast.Load):
+            reads[n.id] = reads.get(n.id, 0) + 1
+    stores = {}
+    for n in ast.walk(fn):
+        if isinstance(n, ast.Name) and isinstance(n.ctx, ast.Store):
+            stores[n.id] = stores.get(n.id, 0) + 1
+    for blk_owner in ast.walk(fn):
+        for fld in ("body", "orelse", "finalbody"):
+            blk = getattr(blk_owner, fld, None)
+            if not isinstance(blk, list):
+                continue
+            for a_, b_ in zip(blk, blk[1:]):
+                if not (isinstance(a_, ast.Assign) and len(a_.targets) == 1 and isinstance(a_.targets[0], ast.Name)):
+                    continue
+                x = a_.targets[0].id
+                if reads.get(x, 0) != 1 or stores.get(x, 0) != 1 or any(isinstance(c, (ast.Call, ast.Lambda, ast.ListComp, ast.GeneratorExp, ast.Await, ast.Yield)) for c in ast.walk(a_.value)):
+                    continue
+                if not isinstance(b_, (ast.Return, ast.Assign, ast.AugAssign, ast.Expr)):
+                    continue
+                uses = [n for n in ast.walk(b_) if isinstance(n, ast.Name) and n.id == x and isinstance(n.ctx, ast.Load)]
+                if len(uses) != 1:
+                    continue
+                par = getattr(uses[0], "_parent", None)
+                if isinstance(par, (ast.JoinedStr, ast.FormattedValue)):
+                    continue
+                s0, _ = span(lines, a_)
+                line_start = src.rfind("\n", 0, s0) + 1
+                _, e0 = span(lines, a_)
+                line_end = src.find("\n", e0) + 1
+                u0, u1 = span(lines, uses[0])
+                edits.append((u0, u1, "(" + ast.unparse(a_.value) + ")"))
+                edits.append((line_start, line_end, ""))
+    if not edits:
+        return None
+    keep = []
+    for e in sorted(edits):
+        if keep and e[0] < keep[-1][1]:
+            return None
+        keep.append(e)
+    out = src
+    for a, b, new in reversed(keep):
+        out = out[:a] + new + out[b:]
+    return out
+
+
 def main():
     mode, outdir = sys.argv[1], sys.argv[2]
     files = sys.argv[3:] or FILES
     rw = {"fstring": rewrite_fstring, "hoist": rewrite_hoist, "tern2if": rewrite_ternary_to_if, "if2tern": rewrite_if_to_ternary,
-          "loop2join": rewrite_loop_to_join, "pos2kw": rewrite_pos_to_kw}[mode]
+          "loop2join": rewrite_loop_to_join, "pos2kw": rewrite_pos_to_kw, "inline": rewrite_inline_locals}[mode]
     os.makedirs(os.path.join(outdir, "benign_out"), exist_ok=True)
     n = 0
     base = tempfile.mkdtemp(prefix="tw-", dir="/dev/shm")
